@@ -385,7 +385,7 @@ def check_cli(ck, scenarios):
         os.makedirs(wd)
         rep = sc['report']
         if rep['kind'] == 'json':
-            out, rc = dd.report_output(rep), 0
+            out, rc = dd.report_output(rep), (1 if 'failed' in list(rep['others']) + [rep['nice'], rep['shield']] else 0)
         elif rep['msg'] == 'password':
             out, rc = b'sudo: a password is required\n', 1
         else:
@@ -784,6 +784,12 @@ def gen_process_env_scenarios(ck, quick):
             out.append({'kind': 'process_env', 'report': rep, 'path': 'stdout-breaks', 'stdout_ok_writes': k,
                         'rebench_path': 'default', 'profiling': False, 'no_denoise': False,
                         'env': rng.choice(ENVS), 'cset': None, 'num_cores': 4})
+    # Ctrl-C / SIGTERM arriving *while* the k-th piece of output is written (also the start-up warning)
+    for k in ([0, 1, 2, 3, 5, 8] if quick else list(range(0, 40))):
+        for mode in ('keyboard-interrupt', 'sigint'):
+            out.append({'kind': 'process_env', 'report': rng.choice(warn), 'path': 'interrupt-during-output',
+                        'stdout_ok_writes': k, 'stdout_mode': mode, 'rebench_path': 'default', 'profiling': False,
+                        'no_denoise': False, 'env': rng.choice(ENVS), 'cset': None, 'num_cores': 4})
     # PATH of ReBench's own process: unset / empty / without the directory of sudo / usual
     for rp in ('unset', 'empty', 'without-sudo', 'usual'):
         for rep in (rng.choice(warn), full[0]):
@@ -800,7 +806,8 @@ def check_process_env(ck, scenarios):
         wd = os.path.join(ck.scratch, 'pe%d' % _counter[0])
         os.makedirs(wd)
         conf = drive.write_config(wd, make_config(dict(sc, path='ok')))
-        stream = dd.BrokenPipeStream(sc['stdout_ok_writes']) if sc['stdout_ok_writes'] is not None else None
+        stream = dd.BrokenPipeStream(sc['stdout_ok_writes'], sc.get('stdout_mode', 'broken-pipe')) \
+            if sc['stdout_ok_writes'] is not None else None
         saved_env = dict(os.environ)
         try:
             if sc['rebench_path'] == 'unset':
